@@ -105,6 +105,26 @@ class Universe:
             out.append((float(u['x0']), float(-u['eqv'] * u['k']), tuple(inw), 0.0))
         return sorted(out)
 
+    def var_path(self, call):
+        cid, sel = call['c'], call['node']
+        if sel == 0:
+            return f"all/{self.opname(cid, 1)}/{VAR[call['var']]}"
+        return f"{CIRC_NODES[cid][sel - 1][0]}/{self.opname(cid, sel)}/{VAR[call['var']]}"
+
+    @staticmethod
+    def override_value(call, base):
+        """OverrideVal of Api.tla: scalar base (or 0); array base + i per addressed node (the last one 0)"""
+        import numpy as np
+        arr = call.get('arr', call['vec']) if call['a'] == 'compile_nv' else call['vec']
+        zero = bool(call.get('zero'))
+        if arr:
+            n = len(CIRC_NODES[call['c']])
+            vals = [base + i for i in range(1, n + 1)]
+            if zero:
+                vals[-1] = 0.0
+            return np.array(vals)
+        return 0.0 if zero else base
+
     def do(self, call):
         import numpy as np, copy
         a = call['a']
@@ -112,8 +132,7 @@ class Universe:
         if a in ('compile', 'compile_nv'):
             kw = {}
             if a == 'compile_nv':
-                i = call['node']
-                kw['node_values'] = {f"{CIRC_NODES[call['c']][i - 1][0]}/{self.opname(call['c'], i)}/{VAR[call['var']]}": float(call['val'])}
+                kw['node_values'] = {self.var_path(call): self.override_value(call, float(call['val']))}
             if call.get('dec'):
                 kw['decorator'] = negate
             func, args, names, svm = c.get_run_func('vf', 1e-3, vectorize=call['vec'], clear=call['clr'], in_place=False,
@@ -125,16 +144,7 @@ class Universe:
                 self.handles.append((func, args, bool(call.get('dec'))))
             return obs
         if a == 'update_var':
-            cid = call['c']
-            sel = call['node']
-            if sel == 0:
-                path = f"all/{self.opname(cid, 1)}/{VAR[call['var']]}"
-                n = len(CIRC_NODES[cid])
-                val = np.array([float(call['val'] + i) for i in range(1, n + 1)]) if call['vec'] else float(call['val'])
-            else:
-                path = f"{CIRC_NODES[cid][sel - 1][0]}/{self.opname(cid, sel)}/{VAR[call['var']]}"
-                val = float(call['val'])
-            c.update_var(node_vars={path: val})
+            c.update_var(node_vars={self.var_path(call): self.override_value(call, float(call['val']))})
             return None
         if a == 'update_edge':
             cid = call['c']
